@@ -199,6 +199,30 @@ Definition indication (n : node) (dest : addr) (data : list N) : node * list act
     end
   end.
 
+(* ---- the route-aware branch of indication (netservice.py:353-367): settings.route_aware is on and the
+   destination carries a route (the link address of a router on the local network, as shown in the source of a
+   routed packet).  The requested address continues as DADR when it is remote or global, the packet is handed to
+   that router on the local adapter, hop count 255; no cache lookup, no parking. *)
+Definition indication_routed (n : node) (dest : addr) (route : mac) (data : list N) : node * list action :=
+  let li := local_idx n in
+  match nth_adapter n li with
+  | None => (n, [Raise OtherErr])
+  | Some _ =>
+      match dest with
+      | ANone => (n, [Raise AttrErr])
+      | ARS d m => (n, [Tx li (LStation route) (mkNpdu (Some (DStation d m)) None 255 None data)])
+      | ARB d => (n, [Tx li (LStation route) (mkNpdu (Some (DBcast d)) None 255 None data)])
+      | AGB => (n, [Tx li (LStation route) (mkNpdu (Some DGlobal) None 255 None data)])
+      | ALS _ | ALB => (n, [Tx li (LStation route) (mkNpdu None None 255 None data)])
+      end
+  end.
+
+(* the route attached to the source shown when settings.route_aware is on (netservice.py:541-542, 557-559):
+   the link source of the delivering frame, whenever the source shown is in remote form *)
+Definition up_route (n : node) (i : nat) (src : mac) (p : npdu) : option mac :=
+  if is_router n && negb (Nat.eqb i (local_idx n)) then Some src
+  else match n_sadr p with Some _ => Some src | None => None end.
+
 (* ---- NetworkServiceElement.WhoIsRouterToNetwork (netservice.py:878-980) *)
 Definition nse_who_is (n : node) (i : nat) (ai : adapter) (src : mac) (p : npdu) (w : option N)
   : node * list action :=
@@ -371,7 +395,8 @@ Definition process_npdu (n : node) (i : nat) (src : mac) (dst : ldest) (p : npdu
 Inductive event :=
 | ELearn (port : nat) (m : mac) (dnets : list N)        (* router_info_cache.update_router_info *)
 | ESend (dest : addr) (data : list N)                   (* the application hands down a PDU *)
-| EArrive (port : nat) (src : mac) (dst : ldest) (p : npdu).
+| EArrive (port : nat) (src : mac) (dst : ldest) (p : npdu)
+| ESendR (dest : addr) (route : mac) (data : list N).   (* route-aware: the destination carries a route *)
 
 Definition do_event (n : node) (e : event) : node * list action :=
   match e with
@@ -382,6 +407,7 @@ Definition do_event (n : node) (e : event) : node * list action :=
       end
   | ESend d data => indication n d data
   | EArrive i s d p => process_npdu n i s d p
+  | ESendR d r data => indication_routed n d r data
   end.
 
 Fixpoint run_script (n : node) (es : list event) : node * list (list action) :=
@@ -507,6 +533,17 @@ Definition submit (w : world) (who : nat) (dest : addr) (data : list N) : world 
       mkWorld (set_nth (nodes w) who wn') (lans w) (queue w ++ fs) (rev_append os (trace w))
   end.
 
+(* the application of node `who` submits a PDU to a destination that carries a route (settings.route_aware) *)
+Definition submit_routed (w : world) (who : nat) (dest : addr) (route : mac) (data : list N) : world :=
+  match nth_error (nodes w) who with
+  | None => w
+  | Some wn =>
+      let '(n', acts) := indication_routed (w_node wn) dest route data in
+      let wn' := mkW n' (w_ports wn) in
+      let '(fs, os) := emit wn' who acts in
+      mkWorld (set_nth (nodes w) who wn') (lans w) (queue w ++ fs) (rev_append os (trace w))
+  end.
+
 Inductive wevent :=
 | WSend (who : nat) (dest : addr) (data : list N)
 | WLearn (who : nat) (port : nat) (m : mac) (dnets : list N)
@@ -566,6 +603,22 @@ Definition c_pending (n : node) : list Z :=
 
 Definition c_script (r : node * list (list action)) (grid : list N) : list Z :=
   flat_map c_actions (snd r) ++ c_cache_view (fst r) grid ++ c_pending (fst r).
+
+(* scripts run with settings.route_aware on: after the actions of an arrival, the route of the source shown *)
+Definition c_optmac (m : option mac) : list Z := match m with None => [0%Z] | Some x => 1%Z :: c_mac x end.
+Definition has_up (l : list action) : bool := existsb (fun a => match a with Up _ _ _ => true | _ => false end) l.
+Fixpoint run_script_ra (n : node) (es : list event) : node * list Z :=
+  match es with
+  | [] => (n, [])
+  | e :: r =>
+      let '(n1, a) := do_event n e in
+      let extra := match e with
+                   | EArrive i s _ p => if has_up a then c_optmac (up_route n i s p) else []
+                   | _ => [] end in
+      let '(n2, l) := run_script_ra n1 r in (n2, c_actions a ++ extra ++ l)
+  end.
+Definition c_script_ra (r : node * list Z) (grid : list N) : list Z :=
+  snd r ++ c_cache_view (fst r) grid ++ c_pending (fst r).
 
 Definition c_obs (o : obs) : list Z :=
   match o with
